@@ -32,6 +32,8 @@ pub struct DocModel {
     pub tags: Vec<Tag>,
     /// white space between `///` and `@` on tag lines
     pub tag_indent: String,
+    /// white space between a tag's identifier and its `:`
+    pub colon_gap: String,
 }
 
 impl Line {
@@ -76,6 +78,7 @@ impl DocModel {
                 Tag::Param { name, colon, inline, cont } => {
                     let mut s = format!("{}@param {name}", self.tag_indent);
                     if *colon {
+                        s.push_str(&self.colon_gap);
                         s.push(':');
                         s.push_str(&inline.written());
                     }
@@ -89,6 +92,9 @@ impl DocModel {
                         s.push_str(n);
                     }
                     if *colon {
+                        if name.is_some() {
+                            s.push_str(&self.colon_gap);
+                        }
                         s.push(':');
                         s.push_str(&inline.written());
                     }
@@ -392,6 +398,7 @@ pub fn gen_doc(u: &mut Unstructured, cfg: &DocCfg) -> DocModel {
         } else {
             [" ", "", "  ", "\t"][pick(u, 4)].to_owned()
         },
+        colon_gap: String::new(),
     };
     // an overview line must not start with '@' after its indentation
     for l in &mut d.overview {
@@ -433,5 +440,7 @@ pub fn gen_doc(u: &mut Unstructured, cfg: &DocCfg) -> DocModel {
             }
         }
     }
+    // (drawn last: white space before the colon is accepted by the comment grammar)
+    d.colon_gap = ["", "", " ", "\t"][pick(u, 4)].to_owned();
     d
 }
